@@ -1295,7 +1295,7 @@ def cases_algo(prop, r, group, n, exe):
             A, ta_ = gen.element(r, group, norm="exact", lin_only=["zero", "unit", "large"])
             B, tb_ = gen.element(r, group, norm="exact", lin_only=["zero", "unit", "large"])
             if it % 3 == 1:      # neighbours: a small relative rotation (both sides of the switch-overs) with sizeable linear parts
-                d, td_ = gen.tangent(r, group, lin_only=["unit"], angle_only=["small", "above-switch", "low"])
+                d, td_ = gen.tangent(r, group, lin_only=["unit"], angle_only=["small", "above-switch", "fourthroot-switch", "low"])
                 rc, o, err = vlib.run_lines(exe, [gen.req(dbg, "o", group, "rplus", 0, A + d)])
                 if o and o[0].startswith("ok"):
                     B, tb_ = [gen.of_hex(x) for x in o[0].split()[1:]], ["near"] + td_
